@@ -366,7 +366,7 @@ def check_pid_exists_midcall(ctx):
                                                                         val["after"], val["log"]),
                          {"pid_exists_midcall": list(job)})
     if nfired < 8:
-        raise core.Machinery("vacuity: only %d kernel events could be placed inside pid_exists() calls" % nfired)
+        core.vacuity("only %d kernel events could be placed inside pid_exists() calls" % nfired)
     ctx.cov["pid_exists_midcall"] = {"placements": len(jobs), "inside_the_call": nfired}
 
 
@@ -385,7 +385,7 @@ def replay_all(ctx, thorough, vacuity=True, only=None):
     need = {"it_step:yield", "it_finish:None", "it_close:None", "cache_clear:None", "is_running:True",
             "is_running:False", "pid_exists:True", "pid_exists:False", "pids:.."}
     if vacuity and need - ops:
-        raise core.Machinery("vacuity: never replayed: %s" % sorted(need - ops))
+        core.vacuity("never replayed: %s" % sorted(need - ops))
     if only is not None:
         return
     # (3) deep random behaviours: 3 PIDs, 2 iterators
@@ -479,7 +479,7 @@ def check_threads(ctx, thorough):
             raise core.Machinery("thread driver failed: %s" % (val,))
         recs.extend(val)
     if sum(1 for r0 in recs if r0["plan"]) < 10:
-        raise core.Machinery("vacuity: hardly any pre-empted schedule")
+        core.vacuity("hardly any pre-empted schedule")
     d = tlc.scratch()
     tf = os.path.join(d, "t.ndjson")
     with open(tf, "w") as f:
